@@ -1149,6 +1149,12 @@ class Interp:
                 raise OutOfSubset('old() without pre-state')
             return self.ev(node.args[0], fr.old)
         if isinstance(node.func, ast.Name) and node.func.id == 'at_head' and fr.spec:
+            if len(node.args) > 1:
+                k_ = ast.literal_eval(node.args[1])
+                hd = getattr(fr, 'heads', {}).get(k_)
+                if hd is None:
+                    raise OutOfSubset('at_head(.., %r): loop %r is not active' % (k_, k_))
+                return self.ev(node.args[0], hd)
             if getattr(fr, 'head', None) is None:
                 raise OutOfSubset('at_head() outside a loop annotation')
             return self.ev(node.args[0], fr.head)
@@ -1717,13 +1723,17 @@ class Interp:
                             self._stored_fields.setdefault(r.id, set()).add(first_attr)
                 elif isinstance(n, ast.Call):
                     f = n.func
+                    written = self.reg.callee_written_args(n)     # None: unknown callee -> conservative
                     if isinstance(f, ast.Attribute):
                         r = f.value
                         while isinstance(r, (ast.Attribute, ast.Subscript)):
                             r = r.value
-                        if isinstance(r, ast.Name):
+                        if isinstance(r, ast.Name) and (written is None or 'self' in written):
                             mutated.add(r.id)
-                    for a in list(n.args) + [k.value for k in n.keywords]:
+                    for ai, a in enumerate(list(n.args) + [k.value for k in n.keywords]):
+                        if written is not None and ai not in written and \
+                                not (ai >= len(n.args) and n.keywords[ai - len(n.args)].arg in written):
+                            continue
                         r = a
                         while isinstance(r, (ast.Attribute, ast.Subscript, ast.Starred)):
                             r = r.value
@@ -1782,6 +1792,7 @@ class Interp:
         sf.old = fr.old
         sf.target_module = fr.module
         sf.head = getattr(fr, 'head', None)
+        sf.heads = getattr(fr, 'heads', {})
         return sf
 
     def check_invariants(self, spec, fr, kind, name, st):
@@ -1809,6 +1820,9 @@ class Interp:
         if spec:
             self.apply_uses(spec.uses, fr)
         fr.head = self.snapshot_frame(self.spec_frame(fr))
+        if not hasattr(fr, 'heads'):
+            fr.heads = {}
+        fr.heads[k] = fr.head
         c = self.ev(st.test, fr)
         if not self.path.branch(self.truth(c), 'while@%d' % st.lineno):
             self.exec_block(st.orelse, fr)
@@ -1898,6 +1912,9 @@ class Interp:
         if spec:
             self.apply_uses(spec.uses, fr)
         fr.head = self.snapshot_frame(self.spec_frame(fr))
+        if not hasattr(fr, 'heads'):
+            fr.heads = {}
+        fr.heads[k] = fr.head
         if not self.path.branch(i < hi, 'for@%d' % st.lineno):
             self.exec_block(st.orelse, fr)
             return
@@ -1969,6 +1986,14 @@ class Interp:
                 tgt.t = self.path.fresh_seq('call.%s' % cname)
             elif isinstance(tgt, VObj):
                 self.havoc_object(tgt, 'call.%s' % cname, self.reg.mutable_fields(tgt.cls))
+            elif isinstance(tgt, (VDict, VList)):
+                # a result container handed to the callee: its contents are no longer tracked
+                repl = VAbsList('dict' if isinstance(tgt, VDict) else 'list')
+                for nm, val in list(fr.locals.items()):
+                    if val is tgt:
+                        fr.locals[nm] = repl
+            elif isinstance(tgt, VAbsList) or tgt is VNone:
+                pass
             else:
                 raise OutOfSubset('assigns target %r' % (tgt,))
         # outcome: normal or one of the declared exceptions; unconditional clauses without ensures are grouped
